@@ -40,7 +40,7 @@ namespace Givaro {
         // -- free memory allocated in array !
         IntRNSsystem() : _primes(0), _prod(one), _ck(0) {}
         ~IntRNSsystem(){}
-        IntRNSsystem(const IntRNSsystem& R) : _primes(R._primes), _prod(R._prod), _ck(R._primes) {}
+        IntRNSsystem(const IntRNSsystem& R) : _primes(R._primes), _prod(R._prod), _ck(R._ck) {}
 
         // -- Cstor with given primes
         IntRNSsystem( const array& primes );
